@@ -41,6 +41,22 @@ def duplicate_definitions(events) -> list[list[str]]:
     return sorted(res)
 
 
+def double_executions(events) -> list[str]:
+    """Steps whose command was started again while a command of the same step was still running."""
+    running: dict[str, int] = {}
+    res = set()
+    for e in events:
+        if e["ev"] == "cmd_start":
+            if running.get(e["step"], 0) > 0:
+                res.add("step:" + e["step"])
+            running[e["step"]] = running.get(e["step"], 0) + 1
+        elif e["ev"] == "cmd_end":
+            running[e["step"]] = max(0, running.get(e["step"], 0) - 1)
+        elif e["ev"] == "proc_start":
+            running = {}
+    return sorted(res)
+
+
 def run_history(project: dict, phases: list[dict], *, world: World | None = None, keep_world=False,
                 commit_hooks=None, gate_hooks=None, report_hooks=None, watch_hooks=None, log_state=True,
                 policy="random") -> dict:
@@ -88,6 +104,7 @@ def run_history(project: dict, phases: list[dict], *, world: World | None = None
                     "nphases": len(group),
                     "watch_points": res.watch_points,
                     "dups": duplicate_definitions(res.trace),
+                    "double_exec": double_executions(res.trace),
                 }
             )
             if res.exc or res.hang:
